@@ -786,7 +786,8 @@ theorem dimsSpec_triangle_witness_ie :
 
 /-- [T] Polygon of dimension two, given an interior face sample.
 Full statement: `DimsSpec (.polygon q)` for every valid polygon — needs S2 (a valid polygon has a face
-sample of the arrangement in its interior). -/
+sample of the arrangement in its interior); proved since: `polygon_interior_sample_valid`,
+`dimsSpec_dom_noCollection_partial` (section Impl3 below). -/
 theorem dimsSpec_polygon_partial (q : Poly) (hd : polyDims q = .two)
     (hi : Spec.HasInteriorSample (parts (.polygon q))) : Spec.DimsSpec (.polygon q) :=
   Spec.dimsSpec_polygon_partial q hd hi
@@ -1463,6 +1464,8 @@ path): for `B` a Point, MultiPoint, Line, Polygon (holes touching the shell incl
 at points included), Rect or Triangle of the domain, `relate(Point p, B)` has the specification's rows — whether `p`
 is a node of `B`'s graph (ring start, line end, touch point) or not. `coordinate_position = locate` is C02
 `coordPos_eq_locate_dom_partial`, whose K9 exclusion is vacuous for these types.
+(Superseded by `relateImpl_point_rows_eq_spec_allTypes_partial` and `relateImpl_point_eq_spec_noCollection_partial`
+in section Impl3, which cover the cases called open here.)
 Full statement (every `B` of the domain, `noK9 p B`): open for LineString, MultiLineString and GeometryCollection —
 needs: self-noding of a simple line string records nothing (adjacent segments are trivial intersections, others
 disjoint), the mod-2 node labels of C17 `nodeOn_addLineStrings` tied to the specification's end point count, and for
@@ -1514,7 +1517,8 @@ of the implementation returns the specification's matrix wherever `HasDimensions
 hypotheses `CoordsInBox` (hole coordinates lie in the shell's box) and `ClosedExt` of `relateImpl_disjoint_eq_spec_partial`
 are discharged from validity (C02X `dom_facts`: `BE = F` of every hole against the shell, closed rings, `min ≤ max`).
 Full statement (no `DimsSpec` hypotheses): needs `DimsSpec` for valid polygons with holes — an interior face sample,
-S2-type, `dimsSpec_polygon_partial` — and for collections (not covered by `DimsSpec`). -/
+S2-type, `dimsSpec_polygon_partial`; proved since for every non-collection operand:
+`relateImpl_disjoint_eq_spec_noCollection_partial` in section Impl3 — and for collections (not covered by `DimsSpec`). -/
 theorem relateImpl_disjoint_eq_spec_dom_partial (ar : Arith) {a b : Geom} (ha : inDomain a = true) (hb : inDomain b = true)
     (h : envelopesMeet a b = false) (da : Spec.DimsSpec a) (db : Spec.DimsSpec b) :
     relateImplWith ar a b = some (relateSpec a b) :=
@@ -1868,6 +1872,15 @@ theorem relateImpl_point_lineType_eq_spec_partial (p : Pt) (b : Geom) (hd : inDo
     rw [this] at h
     exact (Option.some.inj h).symm
 
+/-- a point in the middle of a segment of a closed line string; a point far from it (shortcut path) -/
+example : ∀ m, relateImpl? (.point ⟨2, 0⟩) (.lineString [⟨0, 0⟩, ⟨4, 0⟩, ⟨0, 4⟩, ⟨0, 0⟩]) = some m →
+    m = relateSpec (.point ⟨2, 0⟩) (.lineString [⟨0, 0⟩, ⟨4, 0⟩, ⟨0, 4⟩, ⟨0, 0⟩]) :=
+  fun _ h => relateImpl_point_lineType_eq_spec_partial _ _ (by decide +kernel) rfl h
+
+example : ∀ m, relateImpl? (.point ⟨9, 9⟩) (.lineString [⟨0, 0⟩, ⟨4, 0⟩, ⟨0, 4⟩, ⟨0, 0⟩]) = some m →
+    m = relateSpec (.point ⟨9, 9⟩) (.lineString [⟨0, 0⟩, ⟨4, 0⟩, ⟨0, 4⟩, ⟨0, 0⟩]) :=
+  fun _ h => relateImpl_point_lineType_eq_spec_partial _ _ (by decide +kernel) rfl h
+
 /-- [T] … **and the total function**: `relate` never panics on these operands (`relateImpl_never_panics`), so
 `relateImpl (Point p) B = relateSpec (Point p) B` and, through the two transpose laws, `relateImpl B (Point p) =
 relateSpec B (Point p)`. -/
@@ -2159,6 +2172,19 @@ theorem relateImpl_point_eq_spec_noCollection_partial (p : Pt) (b : Geom) (hd : 
   | multiPolygon ps => exact relateImpl_point_eq_spec_extendedType_partial p _ hd rfl
   | rect mn mx => exact relateImpl_point_eq_spec_extendedType_partial p _ hd rfl
   | triangle a c e => exact relateImpl_point_eq_spec_extendedType_partial p _ hd rfl
+
+/-- a MultiPoint with a repeated point against one of its points; a polygon with a hole against a point in the hole;
+an empty LineString -/
+example : relateImpl (.point ⟨1, 1⟩) (.multiPoint [⟨0, 0⟩, ⟨1, 1⟩, ⟨1, 1⟩]) =
+    relateSpec (.point ⟨1, 1⟩) (.multiPoint [⟨0, 0⟩, ⟨1, 1⟩, ⟨1, 1⟩]) :=
+  (relateImpl_point_eq_spec_noCollection_partial _ _ rfl rfl).1
+
+example : relateImpl (.polygon ⟨[⟨0, 0⟩, ⟨4, 0⟩, ⟨4, 4⟩, ⟨0, 4⟩, ⟨0, 0⟩], [[⟨1, 1⟩, ⟨2, 1⟩, ⟨2, 2⟩, ⟨1, 1⟩]]⟩) (.point ⟨7/4, 5/4⟩) =
+    relateSpec (.polygon ⟨[⟨0, 0⟩, ⟨4, 0⟩, ⟨4, 4⟩, ⟨0, 4⟩, ⟨0, 0⟩], [[⟨1, 1⟩, ⟨2, 1⟩, ⟨2, 2⟩, ⟨1, 1⟩]]⟩) (.point ⟨7/4, 5/4⟩) :=
+  (relateImpl_point_eq_spec_noCollection_partial _ _ (by decide +kernel) rfl).2
+
+example : relateImpl (.point ⟨1, 1⟩) (.lineString []) = relateSpec (.point ⟨1, 1⟩) (.lineString []) :=
+  (relateImpl_point_eq_spec_noCollection_partial _ _ rfl rfl).1
 
 /-! ### Line × Line and linear × linear: the cells of the specification that involve a boundary -/
 
